@@ -155,7 +155,7 @@ def run(prop, tier, rules, meta, repo="/repo"):
 
         def run_rules(d):
             # rule modules memoise per fact object, so a fresh evaluation on another tree is independent
-            _, _, v, _, _ = evaluate(prop, "quick", rules, d, configs=["dates"] if prop == "C11" else ["default"])
+            _, _, v, _, _ = evaluate(prop, "quick", rules, d, configs=["default"])
             return v
         selftest = st.run(prop, rules, repo, run_rules)
         print("self-validation on scratch copies: %d patch(es) applied, %d reported, %d skipped (do not apply to this tree), %d missed%s" % (
